@@ -123,16 +123,16 @@ Theorem C08_fmt2_preserves_tree : forall ts e, parse ts = Some e ->
 Proof. exact fmt2_preserves_tree. Qed.
 Print Assumptions C08_fmt2_preserves_tree.
 
-(* but on trees WITHOUT ParenExpr nodes (format.Node on programmatic ASTs) V2 loses
-   a parenthesis (K25) and a grouping (K26) *)
-Theorem C08_print2_unary_postfix_refuted :
+(* on trees WITHOUT ParenExpr nodes (format.Node on programmatic ASTs) V2 keeps the
+   parentheses of a unary operand of a postfix operator (K25, fixed) ... *)
+Theorem C08_print2_unary_postfix_parenthesised :
   let e := ESel (EUn SUB ex_a) (TIdent [98%N]) in
-  valid e /\ noparen e /\
-  parse (print2 e) = Some (EUn SUB (ESel ex_a (TIdent [98%N]))) /\
-  parse (print1 e) = Some (ESel (EParen (EUn SUB ex_a)) (TIdent [98%N])).
-Proof. exact print2_unary_postfix_refuted. Qed.
-Print Assumptions C08_print2_unary_postfix_refuted.
+  valid e /\ noparen e /\ print2 e = print1 e /\
+  parse (print2 e) = Some (ESel (EParen (EUn SUB ex_a)) (TIdent [98%N])).
+Proof. exact print2_unary_postfix_parenthesised. Qed.
+Print Assumptions C08_print2_unary_postfix_parenthesised.
 
+(* ... but still loses the grouping of a right-nested chain (K26) *)
 Theorem C08_print2_chain_refuted :
   let e := EBin OR ex_a (EBin OR (EUn MUL ex_b) ex_c) in
   valid e /\ noparen e /\
@@ -184,7 +184,7 @@ Theorem C08_v2_reads_back_when_no_hazard : forall e, valid e -> atoms_wf e -> v2
 Proof. exact v2_reads_back_when_no_hazard. Qed.
 Print Assumptions C08_v2_reads_back_when_no_hazard.
 
-(* K1: formatter V1 prints `<-1` for `< -1`;  K2: formatter V2 prints `1.a` for `1 .a` *)
+(* K1: formatter V1 prints `<-1` for `< -1`;  K2 (fixed): formatter V2 keeps the blank of `1 .a` *)
 Theorem C08_v1_glues_lss_sub_refuted :
   let e := EUn LSS (EUn SUB one) in
   valid e /\ Forall tok_wf (print1 e) /\
@@ -196,16 +196,16 @@ Theorem C08_v1_glues_lss_sub_refuted :
 Proof. exact v1_glues_lss_sub_refuted. Qed.
 Print Assumptions C08_v1_glues_lss_sub_refuted.
 
-Theorem C08_v2_glues_int_period_refuted :
+Theorem C08_v2_separates_int_period :
   let e := ESel one (TIdent [97%N]) in
   valid e /\ Forall tok_wf (print2 e) /\
-  hazards (sp2 MDisp e) = [(TInt [49%N], TP PERIOD)] /\
-  scan (render (resolve (fun _ => true) 0 (sp2 MDisp e))) = Some [TFloat [49%N; 46%N]; TIdent [97%N]] /\
-  parse [TFloat [49%N; 46%N]; TIdent [97%N]] = None /\
+  hazards (sp2 MDisp e) = [] /\ sep_ok (sp2 MDisp e) = true /\
+  scan (render (resolve (fun _ => false) 0 (sp2 MDisp e))) = Some (print2 e) /\
+  parse (print2 e) = Some e /\
   hazards (sp1 e 0) = [] /\
   scan (render (resolve (fun _ => true) 0 (sp1 e 0))) = Some (print1 e).
-Proof. exact v2_glues_int_period_refuted. Qed.
-Print Assumptions C08_v2_glues_int_period_refuted.
+Proof. exact v2_separates_int_period. Qed.
+Print Assumptions C08_v2_separates_int_period.
 
 (* ---- non-vacuity ---------------------------------------------------------- *)
 
